@@ -24,7 +24,7 @@ TRUSTED_BASE = [
 # the theorem files of each property (Props/<file>, or a path relative to coq/theories)
 PROPS = {
     "C01": ["C01_nopanic.v", "C01_signals.v", "C01_parse_wf.v"],
-    "C02": ["C02_schedule.v"],
+    "C02": ["C02_schedule.v", "C02_selectors_fresh.v"],
     "C03": ["C03_stream.v", "C02_schedule.v"],
     "C04": ["C04_json.v", "C04_roundtrip.v", "C04_closed.v"],
     "C05": ["C05_operators.v", "C05_late_read.v"],
